@@ -87,6 +87,37 @@ def sandbox_class(name):
     return "outside" if comps[-1] == ".." else "ok"
 
 
+class AbsSandbox:
+    """exclusive use of ABS_SANDBOX while a history with absolute table names runs (the workers run in parallel); `left()` = what lies in it, then emptied"""
+    def __init__(self, names):
+        self.used = any(n.startswith("/") for n in names)
+        self.lock = None
+
+    def __enter__(self):
+        if self.used:
+            import fcntl
+            os.makedirs(ABS_SANDBOX, exist_ok=True)
+            self.lock = open(ABS_SANDBOX + ".lock", "w")
+            fcntl.flock(self.lock, fcntl.LOCK_EX)
+            self.left()
+        return self
+
+    def left(self):
+        if not self.used:
+            return ""
+        out = listing(ABS_SANDBOX, prefix="2f")          # `2f…` = below ABS_SANDBOX
+        for fn in os.listdir(ABS_SANDBOX):
+            p = os.path.join(ABS_SANDBOX, fn)
+            shutil.rmtree(p, ignore_errors=True) if os.path.isdir(p) else os.remove(p)
+        return out
+
+    def __exit__(self, *a):
+        if self.lock is not None:
+            self.left()
+            self.lock.close()
+        return False
+
+
 def fs_name_ok(b):
     """can these bytes be the name of a directory entry?"""
     return 0 < len(b) <= 255 and b"/" not in b and b"\0" not in b and b not in (b".", b"..")
@@ -142,7 +173,12 @@ def run_ops(ops):
     for o in ops:
         if o.startswith("put:") and not (len(o.split(":")) == 3 and fs_name_ok(bytes.fromhex(o.split(":")[1]))):
             return "UNMODELLED file name"
-    os.makedirs(ABS_SANDBOX, exist_ok=True)
+    with AbsSandbox(names) as sandbox:
+        return run_ops_in(ops, sandbox)
+
+
+def run_ops_in(ops, sandbox):
+    from metasequoia_sql.analyzer import tool
     outer = tempfile.mkdtemp(prefix="c17_")
     cache = os.path.join(outer, "cache")
     os.mkdir(cache)
@@ -218,15 +254,10 @@ def run_ops(ops):
                         del tool.open
             else:
                 out.append("BADOP")
-        above = [x for x in (listing(outer, skip=("cache",)), listing(ABS_SANDBOX, prefix="2f")) if x]      # `2f…` = below ABS_SANDBOX
+        above = [x for x in (listing(outer, skip=("cache",)), sandbox.left()) if x]
         return ("OK " + " ".join(out) + " calls=" + ",".join(hx(n) for n in calls) + " dir=" + listing(cache) + " parent=" + ",".join(above))
     finally:
         shutil.rmtree(outer, ignore_errors=True)
-        for fn in os.listdir(ABS_SANDBOX) if os.path.isdir(ABS_SANDBOX) else []:
-            try:
-                os.remove(os.path.join(ABS_SANDBOX, fn))
-            except OSError:
-                pass
 
 
 def cmd_cache(parts):
@@ -247,10 +278,14 @@ def cmd_quote(parts):
         class G(tool.CreateTableStatementGetter):
             def get_sql(self, full_table_name):
                 return ""
-        G(cache).save_to_disk(name, "x")
+        with AbsSandbox([name]) as sandbox:
+            try:
+                G(cache).save_to_disk(name, "x")
+            finally:
+                above = ",".join(x for x in (listing(outer, skip=("cache",)), sandbox.left()) if x)
         got = os.listdir(cache)
-        if len(got) != 1 or os.listdir(outer) != ["cache"]:
-            return "OK files=%s above=%s" % (",".join(sorted(os.fsencode(f).hex() for f in got)), listing(outer, skip=("cache",)))
+        if len(got) != 1 or above:
+            return "OK files=%s above=%s" % (",".join(sorted(os.fsencode(f).hex() for f in got)), above)
         return "OK " + os.fsencode(got[0]).hex()
     except Exception as e:
         return canon.err_kind(e)
